@@ -33,6 +33,8 @@ structure Ghost where
   rErr : Bool := false                      -- the reader was reset (RESET_STREAM delivered / CancelRead)
   rEnded : Bool := false                    -- Read returned EOF or an error
   rPendingN : Option Nat := none
+  deliveredIdx : List Nat := []             -- emission indices handed to the receive stream at least once
+  ackedIdx : List Nat := []                 -- emission indices the driver acknowledged
 deriving Inhabited
 
 structure St where
@@ -110,6 +112,12 @@ def readMonitors (g : Ghost) (rd : String) (n : Nat) : Ghost × List (String × 
       fails := fails ++ [mon "read_complete" s!"Read({n}) blocks although {avail} contiguous bytes were delivered beyond {g.out.length}"]
     if readerLive && avail == 0 && finAt == some g.out.length then
       fails := fails ++ [mon "read_complete" s!"Read blocks at offset {g.out.length} although the FIN for that offset was delivered"]
+    -- the sender said "completed" (so the connection drops the stream from the framer and nothing more is
+    -- ever sent), neither side reported an error, and every frame that was acknowledged has really been
+    -- delivered (an ACK implies delivery): then the reader must not be left waiting for written bytes
+    if readerLive && n > 0 && g.doneCount ≥ 1 && g.closed && !g.reset && !g.shut &&
+        g.ackedIdx.all (g.deliveredIdx.contains ·) && (avail == 0 && finAt != some g.out.length) then
+      fails := fails ++ [mon "read_complete" s!"the sender reported the stream completed and every acknowledged frame was delivered, but the reader waits at offset {g.out.length} of {g.written.length} bytes written"]
     g := { g with rPendingN := some n }
   else if rd.startsWith "R" then
     g := { g with rPendingN := none }
@@ -163,7 +171,7 @@ def stepRecv (st : St) (w : List String) (impl : String) : St × StepOut := Id.r
                  else if o > coveredFrom (segRanges g) 0 then "deliver:gap" else "deliver:next"]
         if head != "nil" && !g.rErr then
           fails := fails ++ [mon "deliver_accepted" s!"handleStreamFrame({o}+{d.length}) failed: {head}"]
-        g := { g with segs := g.segs ++ [(o, d, f)] }
+        g := { g with segs := g.segs ++ [(o, d, f)], deliveredIdx := if g.deliveredIdx.contains i then g.deliveredIdx else i :: g.deliveredIdx }
     | _, _ => tags := ["deliver:skip"]
   | ["read", k] =>
     if head != "skip" then
@@ -391,7 +399,7 @@ def step (st : St) (op impl : String) : St × StepOut :=
       let i := natOf i
       if implHead == "ok" && g.outstanding.contains i then
         match g.emitted[i]? with
-        | some (o, l, f) => g := { g with outstanding := g.outstanding.filter (· != i), acked := (o, o + l) :: g.acked, ackedFin := g.ackedFin || f }
+        | some (o, l, f) => g := { g with outstanding := g.outstanding.filter (· != i), acked := (o, o + l) :: g.acked, ackedFin := g.ackedFin || f, ackedIdx := i :: g.ackedIdx }
         | none => pure ()
     | ["lost", i] =>
       let i := natOf i
@@ -410,6 +418,11 @@ def step (st : St) (op impl : String) : St × StepOut :=
         if natOf n > g.written.length then
           fails := fails ++ [mon "write_return_sound" s!"Write returned n={n} > bytes handed in"]
       | _ => pure ()
+    -- the completion callback may fire only when every written byte and the FIN have been acknowledged
+    -- (unless the stream was reset / cancelled / shut down)
+    if natOf (implEv.getD 2 "0") > 0 && !g.reset && !g.shut && !g.dead then
+      if !(g.closed && coversPrefix g.acked g.written.length && g.ackedFin) then
+        fails := fails ++ [mon "completed_only_when_all_acked" s!"onStreamCompleted fired but acked bytes stop at {coveredFrom g.acked 0} of {g.written.length}, fin acked={g.ackedFin}, closed={g.closed}"]
     fails := fails ++ stateMonitors g impl
     return ({ st with m := s2, g := g, nops := st.nops + 1 }, { model := model, tags := tags, fails := fails })
 
